@@ -1,8 +1,8 @@
 package props
 
 import (
-	"go/token"
 	"go/ast"
+	"go/token"
 	"go/types"
 	"sort"
 	"strings"
